@@ -462,24 +462,17 @@ theorem send_client_stats_eq (E : Env) (LOG : Nat) (x : GenRest) (s : Server) (s
     simp only [h1, if_true]
     simp [h2, loopOf, Recorder.recordAll]
 
-/-- `process_events` refines the model: for the tokens `poll` reports (each at most once, all of them known), with
-    every send / write / shutdown succeeding and no datagram arriving during the call, the generated code behaves as
-    `EventLoop.processEvents` does for SOME per-batch inputs without in-call arrivals (the clock readings and
-    fault-injection decisions the environment supplies) — same backlog flag, same datagrams on the wire in the same
-    order, same remaining receive queue, same connections answered in the same order, same published snapshots, same
-    recorder state, same responder states. Hence every LOOP_* theorem (which quantify over all `CallIn`s) applies to
-    what the code does. -/
-theorem process_events_sim (E : Env) (hH : ∀ z, (E.H z).length = 64) (LOG : Nat) (x : GenRest) (s : Server)
+/-- `process_events` refines the model for the per-batch inputs `passAt` (see `process_events_sim` below) -/
+theorem process_events_sim_passAt (E : Env) (hH : ∀ z, (E.H z).length = 64) (LOG : Nat) (x : GenRest) (s : Server)
     (sock : Gen.Sock) (buf : Bytes) (backlog : Bool) (ev : List Event) (gI gC : List Grease) (cI cC : Grease)
     (evs0 : List Nat) (toks : List Token)
     (hok : ∀ a k, sock.ok a k = true) (hfit : ∀ p ∈ sock.inq, p.1.length ≤ buf.length)
     (hpoll : x.poll.fails = false) (htoks : x.poll.ready.mapM tokenOf = some toks) (hnodup : x.poll.ready.Nodup)
     (hconn : ∀ c ∈ x.tcp.pending, c.writeOk = true ∧ c.shutOk = true) :
-    ∃ passes : Nat → PassIn, (∀ i, (passes i).arrivals = []) ∧
-      (Gen.Server.process_events E.S E.H LOG (toGenServer x s sock buf backlog ev ⟨gI, cI⟩ ⟨gC, cC⟩) evs0).map
+    (Gen.Server.process_events E.S E.H LOG (toGenServer x s sock buf backlog ev ⟨gI, cI⟩ ⟨gC, cC⟩) evs0).map
           (fun r => obsLoopGen r.1)
-        ≃ᵣ (processEvents E (decide (LOG ≥ 4)) (loopOf x s sock backlog ev) ⟨toks, passes⟩).map (obsLoopModel x sock) := by
-  refine ⟨fun i => passAt E (decide (LOG ≥ 4)) i s sock gI gC, fun i => passAt_arrivals _ _ _ _ _ _ _, ?_⟩
+        ≃ᵣ (processEvents E (decide (LOG ≥ 4)) (loopOf x s sock backlog ev)
+              ⟨toks, fun i => passAt E (decide (LOG ≥ 4)) i s sock gI gC⟩).map (obsLoopModel x sock) := by
   have hmodel : processEvents E (decide (LOG ≥ 4)) (loopOf x s sock backlog ev)
       ⟨toks, fun i => passAt E (decide (LOG ≥ 4)) i s sock gI gC⟩ =
       modelTail E (decide (LOG ≥ 4)) (fun i => passAt E (decide (LOG ≥ 4)) i s sock gI gC) toks
@@ -511,6 +504,72 @@ theorem process_events_sim (E : Env) (hH : ∀ z, (E.H z).length = 64) (LOG : Na
   case hb1 => intro g sv; rfl
   case hb2 => intro g sv; rfl
   case hK => intro g sv; cases sv <;> simp
+
+theorem nodup_of_tokRel : ∀ (ts : List Nat) (toks : List Token), TokRel ts toks → ts.Nodup → toks.Nodup := by
+  have hmem : ∀ (ts : List Nat) (toks : List Token), TokRel ts toks → ∀ t ∈ toks, ∃ n ∈ ts, tokenOf n = some t := by
+    intro ts toks h
+    induction h with
+    | nil => intro t ht; cases ht
+    | @cons n t ts toks hnt _ ih =>
+      intro t' ht'
+      rcases List.mem_cons.mp ht' with rfl | ht'
+      · exact ⟨n, List.mem_cons_self .., hnt⟩
+      · obtain ⟨m, hm, hmt⟩ := ih t' ht'
+        exact ⟨m, List.mem_cons_of_mem _ hm, hmt⟩
+  intro ts toks h
+  induction h with
+  | nil => intro _; exact List.nodup_nil
+  | @cons n t ts toks hnt hrest ih =>
+    intro hnd
+    obtain ⟨hn, hnd'⟩ := List.nodup_cons.mp hnd
+    refine List.nodup_cons.mpr ⟨fun ht => ?_, ih hnd'⟩
+    obtain ⟨m, hm, hmt⟩ := hmem ts toks hrest t ht
+    have : m = n := by
+      rcases tokenOf_cases n t hnt with ⟨rfl, rfl⟩ | ⟨rfl, rfl⟩ | ⟨rfl, rfl⟩ <;>
+        rcases tokenOf_cases m _ hmt with ⟨rfl, h⟩ | ⟨rfl, h⟩ | ⟨rfl, h⟩ <;> first | rfl | cases h
+    exact hn (this ▸ hm)
+
+/-- the same for per-batch inputs every one of which is taken from the environment (`passEnv`, `passEnv_prov`): the
+    model cannot tell them from `passAt` -/
+theorem process_events_sim_passEnv (E : Env) (hH : ∀ z, (E.H z).length = 64) (LOG : Nat) (x : GenRest) (s : Server)
+    (sock : Gen.Sock) (buf : Bytes) (backlog : Bool) (ev : List Event) (gI gC : List Grease) (cI cC : Grease)
+    (evs0 : List Nat) (toks : List Token)
+    (hok : ∀ a k, sock.ok a k = true) (hfit : ∀ p ∈ sock.inq, p.1.length ≤ buf.length)
+    (hpoll : x.poll.fails = false) (htoks : x.poll.ready.mapM tokenOf = some toks) (hnodup : x.poll.ready.Nodup)
+    (hconn : ∀ c ∈ x.tcp.pending, c.writeOk = true ∧ c.shutOk = true) :
+    (Gen.Server.process_events E.S E.H LOG (toGenServer x s sock buf backlog ev ⟨gI, cI⟩ ⟨gC, cC⟩) evs0).map
+          (fun r => obsLoopGen r.1)
+        ≃ᵣ (processEvents E (decide (LOG ≥ 4)) (loopOf x s sock backlog ev)
+              ⟨toks, fun i => passEnv E (decide (LOG ≥ 4)) i s sock gI gC⟩).map (obsLoopModel x sock) := by
+  have h := process_events_sim_passAt E hH LOG x s sock buf backlog ev gI gC cI cC evs0 toks hok hfit hpoll htoks hnodup hconn
+  have hmodel : ∀ ins, processEvents E (decide (LOG ≥ 4)) (loopOf x s sock backlog ev) ⟨toks, ins⟩ =
+      modelTail E (decide (LOG ≥ 4)) ins toks (loopOf x s sock backlog ev) false := by
+    intro ins
+    simp only [processEvents, modelTail, loopOf, Bool.false_and]
+  rw [hmodel] at h
+  rw [hmodel, modelTail_passEnv E (decide (LOG ≥ 4)) s sock gI gC toks
+    (nodup_of_tokRel _ _ (tokRel_of_mapM _ _ htoks) hnodup) _ false (fun _ => ⟨rfl, rfl⟩) (fun h => by cases h)]
+  exact h
+
+/-- `process_events` refines the model: for the tokens `poll` reports (each at most once, all of them known), with
+    every send / write / shutdown succeeding and no datagram arriving during the call, the generated code behaves as
+    `EventLoop.processEvents` does for SOME per-batch inputs without in-call arrivals (the clock readings and
+    fault-injection decisions the environment supplies) — same backlog flag, same datagrams on the wire in the same
+    order, same remaining receive queue, same connections answered in the same order, same published snapshots, same
+    recorder state, same responder states. Hence every LOOP_* theorem (which quantify over all `CallIn`s) applies to
+    what the code does. -/
+theorem process_events_sim (E : Env) (hH : ∀ z, (E.H z).length = 64) (LOG : Nat) (x : GenRest) (s : Server)
+    (sock : Gen.Sock) (buf : Bytes) (backlog : Bool) (ev : List Event) (gI gC : List Grease) (cI cC : Grease)
+    (evs0 : List Nat) (toks : List Token)
+    (hok : ∀ a k, sock.ok a k = true) (hfit : ∀ p ∈ sock.inq, p.1.length ≤ buf.length)
+    (hpoll : x.poll.fails = false) (htoks : x.poll.ready.mapM tokenOf = some toks) (hnodup : x.poll.ready.Nodup)
+    (hconn : ∀ c ∈ x.tcp.pending, c.writeOk = true ∧ c.shutOk = true) :
+    ∃ passes : Nat → PassIn, (∀ i, (passes i).arrivals = []) ∧
+      (Gen.Server.process_events E.S E.H LOG (toGenServer x s sock buf backlog ev ⟨gI, cI⟩ ⟨gC, cC⟩) evs0).map
+          (fun r => obsLoopGen r.1)
+        ≃ᵣ (processEvents E (decide (LOG ≥ 4)) (loopOf x s sock backlog ev) ⟨toks, passes⟩).map (obsLoopModel x sock) :=
+  ⟨fun i => passAt E (decide (LOG ≥ 4)) i s sock gI gC, fun _ => passAt_arrivals _ _ _ _ _ _ _,
+    process_events_sim_passAt E hH LOG x s sock buf backlog ev gI gC cI cC evs0 toks hok hfit hpoll htoks hnodup hconn⟩
 
 end Bridge
 end Rough
